@@ -57,7 +57,7 @@ import zlib
 from lib import repo, tla
 
 INDEX = "index.wtml"
-ACTS = ["Start", "NextImage", "BeginPut", "EndPut", "Rename", "Finish", "Crash", "Fail", "Refuse", "StoreFail"]
+ACTS = ["Start", "NextImage", "BeginPut", "EndPut", "Rename", "Finish", "Crash", "Fail", "Refuse", "StoreFail", "RefuseSubdir"]
 STORE_CFG = "toasty-pipeline-config.yaml"
 FAKE_SOURCE = "_c18_fake"
 
@@ -80,7 +80,7 @@ K_INDEX_TRUNC = "C18:refresh:skips-image-with-incomplete-index"
 CRASH_CLASSES = ["KeyboardInterrupt", "SystemExit", "GeneratorExit", "MemoryError", "Exception", "BaseException"]
 CRASH_ALWAYS = ["kill", "KeyboardInterrupt"]
 CRASH_ROTATING = [c + m for c in CRASH_CLASSES for m in ("", "*2") if c + m not in CRASH_ALWAYS]
-NAMES = {"data.png", INDEX, "index_rel.wtml", "thumb.jpg", "0_0.png"}
+NAMES = {"data.png", INDEX, "index_rel.wtml", "thumb.jpg", "0_0.png", "tiles", "1", "previews", "small.jpg"}      # incl. the sub-folder names
 # the flavours of OSError a failed transfer is realised with (Fail, Refuse, the failing rename of StoreFail), and "janitor":
 # something really deletes the in-flight temporary file of the store, so that the real put_item fails by itself (ENOENT)
 FAIL_CLASSES = ["OSError", "FileNotFoundError", "PermissionError", "IsADirectoryError", "ENOSPC", "EIO", "TimeoutError", "ConnectionError"]
@@ -100,14 +100,19 @@ def mc_module(name, configs):
     text, n1 = re.subn(r"MODULE MCPublish\b", "MODULE " + name, text, count=1)
     lit = "{" + ",\n               ".join(tla.lit(c) for c in configs) + "}"
     text, n2 = re.subn(r"MCConfigs ==.*?(?=\nASSUME)", lambda m: "MCConfigs == " + lit, text, count=1, flags=re.S)
-    if n1 != 1 or n2 != 1:
+    # TopOf: the files that lie in a sub-folder of their image directory (relative path with "/"), with that sub-folder
+    nested = sorted({f for c in configs for fs in c.values() for f in fs if "/" in f})
+    fn = ("(" + " @@ ".join("%s :> %s" % (tla.lit(f), tla.lit(f.split("/")[0])) for f in nested) + ")") if nested else '[f \\in {} |-> "-"]'
+    text, n3 = re.subn(r"MCNested ==.*?(?=\nMCTopOf)", lambda m: "MCNested == " + fn, text, count=1, flags=re.S)
+    if n1 != 1 or n2 != 1 or n3 != 1:
         raise RuntimeError("spec/MCPublish.tla does not have the expected shape")
     return text
 
 
-def cfg(max_faults, atomic, invariants=(), properties=(), emit=False):
+def cfg(max_faults, atomic, invariants=(), properties=(), emit=False, traversal="listdir"):
     lines = ["SPECIFICATION Spec", "CONSTANTS", " Configs <- MCConfigs", ' Index = "%s"' % INDEX,
-             " MaxFaults = %d" % max_faults, " Atomic = %s" % ("TRUE" if atomic else "FALSE")]
+             " MaxFaults = %d" % max_faults, " Atomic = %s" % ("TRUE" if atomic else "FALSE"),
+             " TopOf <- MCTopOf", ' Traversal = "%s"' % traversal]
     lines += ["INVARIANT " + i for i in invariants]
     lines += ["PROPERTY " + p for p in properties]
     if emit:
@@ -116,7 +121,7 @@ def cfg(max_faults, atomic, invariants=(), properties=(), emit=False):
     return "\n".join(lines) + "\n"
 
 
-Q_INV = ["TypeOK", "QIndexImpliesAll", "QPublishedImpliesAll", "QRefreshSafe", "QUnfinishedIsApproved"]
+Q_INV = ["TypeOK", "NestedClosed", "QIndexImpliesAll", "QPublishedImpliesAll", "QRefreshSafe", "QUnfinishedIsApproved"]
 PROPS = ["IndexLast", "RenameAfterAll", "PublishedStable", "Completes", "ReRunCompletes"]
 
 
@@ -124,13 +129,38 @@ def skey(s):
     return json.dumps(s, sort_keys=True, separators=(",", ":"))
 
 
+def fkey(files):
+    return json.dumps({i: sorted(fs) for i, fs in files.items()}, sort_keys=True)
+
+
+def is_flat(files):
+    return not any("/" in f for fs in files.values() for f in fs)
+
+
+def initial_snapshot(files):
+    """approved/<image>/<relative path> for every file of every image (sub-folders included), nothing anywhere else."""
+    snap = {}
+    for i, fs in files.items():
+        snap["work/approved/" + i] = None
+        for f in fs:
+            parts = f.split("/")
+            for n in range(1, len(parts)):
+                snap["work/approved/%s/%s" % (i, "/".join(parts[:n]))] = None
+            snap["work/approved/%s/%s" % (i, f)] = content(i, f)
+    return snap
+
+
 class Graph(object):
     """The state graph TLC printed: nodes = spec states, edges labelled with the set of actions that relate them."""
 
-    def __init__(self, edges, full=True):
+    def __init__(self, edges, full=True, orders=None, scan_reverse=False):
         # full = True: every Crash variant at every crash point (used by --replay); otherwise the two standing ones plus
         # `full` (a number) variants in rotation over the crash points
+        # orders (graph of a descending publisher, Traversal = "descend-any"): {files key: {image: transfer order}} - the
+        # traversal the code under test was observed to make; only the runs that use it are replayed
         self.full = full
+        self.orders = orders
+        self.scan_reverse = scan_reverse
         self.state = {}
         self.adj = {}
         indeg = set()
@@ -145,7 +175,10 @@ class Graph(object):
             indeg.add(b)
         for k in self.adj:
             self.adj[k].sort()
-        self.roots = sorted(k for k in self.state if k not in indeg)
+        # the initial states (a refused run of an image with a sub-folder may lead back to one)
+        self.roots = sorted(k for k, s in self.state.items() if s["pc"] == "idle" and s["faults"] == 0
+                            and all(v == "approved" for v in s["loc"].values())
+                            and all(v == "absent" for st in s["store"].values() for v in st.values()))
         self._segs = {}
         self.nedges = sum(len(v) for v in self.adj.values())
 
@@ -158,12 +191,17 @@ class Graph(object):
         def dfs(k, acc):
             for acts, t in self.adj.get(k, ()):
                 for a in acts:
+                    if a == "NextImage" and self.orders is not None:
+                        st = self.state[t]
+                        if self.orders.get(fkey(st["files"]), {}).get(st["cur"]) != list(st["order"]):
+                            continue        # not the traversal the code under test makes
                     acc.append((a, t))
                     if self.state[t]["pc"] == "idle":
                         sk = self.state[k]
                         big = a == "StoreFail" and sk["order"][sk["k"] - 1] == BIG
                         for v in (self.store_variants(k, big) if a == "StoreFail" else
-                                  self.crash_variants(k) if a == "Crash" else self.fail_classes(k, a)):
+                                  self.crash_variants(k) if a == "Crash" else
+                                  [None] if a in ("Finish", "RefuseSubdir") else self.fail_classes(k, a)):
                             out.append((list(acc), v))
                     else:
                         dfs(t, acc)
@@ -221,8 +259,12 @@ class Plan(object):
         self.images = []     # img, listing, order, pre (state at the outer loop head)
         self.puts = []       # img, file, pre, mid, post
         self.fault = None
+        self.refused = None  # as built: the run ends with publish() raising at this sub-folder of this image
+        self.descend = g.orders is not None
+        self.scan_reverse = g.scan_reverse
         cur = g.state[key0]
         self.start = cur
+        self.flat = is_flat(cur["files"])
         for act, tk in seg:
             st = g.state[tk]
             if act == "Start":
@@ -233,6 +275,8 @@ class Plan(object):
                 self.puts.append({"img": cur["cur"], "file": cur["order"][cur["k"] - 1], "pre": cur, "mid": st, "post": None})
             elif act == "EndPut":
                 self.puts[-1]["post"] = st
+            elif act == "RefuseSubdir":
+                self.refused = {"image": cur["cur"], "subdir": cur["order"][cur["k"] - 1]}
             elif act in ("Crash", "Fail", "Refuse", "StoreFail"):
                 if act == "StoreFail":
                     where, ordinal = "store", len(self.puts) - 1
@@ -241,10 +285,10 @@ class Plan(object):
                     self.puts.append({"img": cur["cur"], "file": cur["order"][cur["k"] - 1], "pre": cur, "mid": None, "post": None})
                 elif cur["pc"] == "writing":
                     where, ordinal = "during", len(self.puts) - 1
-                elif cur["k"] <= len(cur["order"]):
+                elif cur["k"] <= len(cur["order"]) and cur["order"][cur["k"] - 1] in cur["files"][cur["cur"]]:
                     where, ordinal = "entry", len(self.puts)
                     self.puts.append({"img": cur["cur"], "file": cur["order"][cur["k"] - 1], "pre": cur, "mid": None, "post": None})
-                else:
+                else:       # after the last transfer of the image, or (as built) after the one before a sub-folder slot
                     where, ordinal = "exit", len(self.puts) - 1
                 self.fault = {"kind": act, "where": where, "ordinal": ordinal,
                               "image": self.puts[ordinal]["img"], "file": self.puts[ordinal]["file"]}
@@ -255,13 +299,21 @@ class Plan(object):
         self.nsteps = len(seg)
 
     def describe(self):
-        return {"approved_listing": self.queue, "listings": {i["img"]: i["listing"] for i in self.images},
-                "fault": self.fault}
+        d = {"approved_listing": self.queue, "listings": {i["img"]: i["listing"] for i in self.images},
+             "fault": self.fault}
+        if self.refused:
+            d["refused_subdir"] = self.refused
+        if self.descend:
+            d["directory_order"] = "reverse-sorted" if self.scan_reverse else "sorted"
+        return d
 
 
 # ------------------------------------------------------------------------------------------------
 # real-code side
 # ------------------------------------------------------------------------------------------------
+
+POOL = 6        # worker processes of the replay
+
 
 class SimulatedCrash(BaseException):
     pass
@@ -416,6 +468,7 @@ class Bench(object):
         with open(os.path.join(self.store, STORE_CFG), "w") as f:
             f.write("source_type: %s\n%s:\n  ids: [%s]\n" % (FAKE_SOURCE, FAKE_SOURCE, ", ".join(sorted(files))))
         self._listdir = os.listdir
+        self._scandir = os.scandir
         self._refresh_memo = {}
         self.current = None
         self.park = os.path.join(root, "park")
@@ -502,7 +555,7 @@ class Bench(object):
             if snap[rel] is None:
                 if not os.path.isdir(p):
                     q = self.parked.pop() if self.parked else None
-                    if q is not None and not self._listdir(q):
+                    if q is not None and not self._listdir(q) and os.path.isdir(os.path.dirname(p)):
                         os.rename(q, p)
                     else:
                         os.makedirs(p)
@@ -579,11 +632,16 @@ class Bench(object):
         return {"store": store, "loc": loc}
 
     def stray(self, snap):
+        # everything in the store that is not a file of an image (by relative path) or a folder on the way to one:
+        # temporary files a killed put_item left behind (<item>.tmp<pid>) and the like.  They are NOT files of the image:
+        # real_state() looks up each file of the image by its exact relative path and nothing else.
         known = set()
         for i, fs in self.files.items():
             known.add("store/" + i)
             for f in fs:
-                known.add("store/%s/%s" % (i, f))
+                parts = f.split("/")
+                for n in range(1, len(parts) + 1):
+                    known.add("store/%s/%s" % (i, "/".join(parts[:n])))
         return sorted(k for k in snap if k.startswith("store/") and k not in known)
 
     # ---- refresh ------------------------------------------------------------------------------
@@ -677,19 +735,67 @@ class Bench(object):
                     return real
                 st["listed_top"] = True
                 return list(plan.queue)
+            if plan.descend and p.startswith(approved + os.sep):
+                # a publisher that walks the tree: the order of every directory below approved/ is the one of the probe
+                return sorted(bench._listdir(path), reverse=plan.scan_reverse)
             if os.path.dirname(p) == approved:
-                img = os.path.basename(p)
                 real = bench._listdir(path)
-                j = st["img_i"]
-                if st["sync"] and j < len(plan.images) and plan.images[j]["img"] == img and sorted(real) == sorted(plan.images[j]["listing"]):
-                    st["img_i"] = j + 1
-                    compare(plan.images[j]["pre"], "before listing %s" % img)
-                    return list(plan.images[j]["listing"])
-                if st["sync"]:
-                    st["sync"] = False
-                    drift("unexpected listing of approved/%s (spec run: %s)" % (img, [i["img"] for i in plan.images]))
-                return real
+                return image_listing(os.path.basename(p), real) or real
             return bench._listdir(path)
+
+        def image_listing(img, real):
+            """The listing of approved/<img> the behaviour prescribes (None: the run has left the spec)."""
+            j = st["img_i"]
+            if st["sync"] and j < len(plan.images) and plan.images[j]["img"] == img and sorted(real) == sorted(plan.images[j]["listing"]):
+                st["img_i"] = j + 1
+                compare(plan.images[j]["pre"], "before listing %s" % img)
+                return list(plan.images[j]["listing"])
+            if st["sync"]:
+                st["sync"] = False
+                drift("unexpected listing of approved/%s (spec run: %s)" % (img, [i["img"] for i in plan.images]))
+            return None
+
+        class Scan(object):
+            """os.scandir (which os.walk uses) with the entries in the imposed order."""
+
+            def __init__(self, it, reverse, names=None):
+                with it:
+                    ents = list(it)
+                if names is not None:
+                    pos = {n: k for k, n in enumerate(names)}
+                    self._it = iter(sorted(ents, key=lambda e: pos.get(e.name, len(pos))))
+                else:
+                    self._it = iter(sorted(ents, key=lambda e: e.name, reverse=reverse))
+
+            def __iter__(self):
+                return self
+
+            def __next__(self):
+                return next(self._it)
+
+            def __enter__(self):
+                return self
+
+            def __exit__(self, *a):
+                return False
+
+            def close(self):
+                pass
+
+        def scandir(path="."):
+            it = bench._scandir(path)
+            try:
+                p = os.path.normpath(os.fsdecode(os.fspath(path)))
+            except TypeError:
+                return it
+            if plan.descend and (p + os.sep).startswith(approved + os.sep) and p != approved:
+                return Scan(it, plan.scan_reverse)
+            if not plan.descend and os.path.dirname(p) == approved:
+                # a publish() that lists the image directory with os.scandir / os.walk: the listing of the behaviour
+                names = image_listing(os.path.basename(p), bench._listdir(p))
+                if names is not None:
+                    return Scan(it, False, names)
+            return it
 
         class Proxy(object):
             def __init__(self, real):
@@ -709,10 +815,14 @@ class Bench(object):
                         drift("put_item is called from a thread other than the one that runs publish(): the step order of the spec "
                               "does not apply; only the sentences on the disk are judged")
                 exp = plan.puts[n] if n < len(plan.puts) else None
-                if st["sync"] and (exp is None or [exp["img"], exp["file"]] != list(path)):
+                # an item below a sub-folder is addressed by its path relative to the image directory
+                relf = "/".join(str(c) for c in path[1:])
+                if st["sync"] and (exp is None or [exp["img"], exp["file"]] != [path[0], relf]):
                     st["sync"] = False
-                    drift("put #%d is %s, spec transfers %s" % (n + 1, list(path), exp and [exp["img"], exp["file"]]))
-                # property monitor on the REAL store: index.wtml strictly after every other file of the image
+                    drift("put #%d is %s, spec %s" % (n + 1, list(path), ("transfers %s" % [exp["img"], exp["file"]]) if exp else
+                                                      ("has publish() raise at the sub-folder %s" % plan.refused["subdir"]) if plan.refused
+                                                      else "makes no further transfer"))
+                # property monitor on the REAL store: index.wtml strictly after every other file of the image (sub-folders included)
                 if len(path) == 2 and path[1] == INDEX and path[0] in bench.files:
                     real = bench.real_state()["store"][path[0]]
                     bad = sorted(f for f, v in real.items() if f != INDEX and v != "complete")
@@ -734,7 +844,7 @@ class Bench(object):
                            make_os_error(flt.get("variant") or "OSError"))
                     if isinstance(exc, OSError):
                         st["fail_exc"] = exc
-                size = len(content(*path)) if len(path) == 2 else 0
+                size = len(content(path[0], relf)) if relf in bench.files.get(path[0], ()) else 0
                 chunk = 4099 if size > 1000 else FaultStream.CHUNK
                 if flt and flt["where"] == "entry":
                     st["injected"] = True
@@ -749,9 +859,11 @@ class Bench(object):
                     if flt and flt.get("variant") == "janitor":
                         # something cleans the store directory while the transfer is in flight: every entry that is not an
                         # item (the temporary file of this put_item) is really deleted
-                        d = os.path.join(bench.store, path[0])
+                        d = os.path.dirname(os.path.join(bench.store, *path))
+                        sub = "/".join(path[1:-1])
+                        keep = {f[len(sub) + 1 if sub else 0:].split("/")[0] for f in bench.files.get(path[0], ()) if f.startswith(sub + "/" if sub else "")}
                         for e in (bench._listdir(d) if os.path.isdir(d) else []):
-                            if e not in bench.files.get(path[0], ()):
+                            if e not in keep:
                                 try:
                                     os.remove(os.path.join(d, e))
                                     st["janitor"] = True
@@ -836,6 +948,7 @@ class Bench(object):
         mgr._pipeio = Proxy(mgr._pipeio)
         outcome, err = "returned", None
         os.listdir = listdir
+        os.scandir = scandir
         old_int = signal.signal(signal.SIGINT, signal.default_int_handler) if crash_cls is KeyboardInterrupt else None
         try:
             with contextlib.redirect_stdout(io.StringIO()), contextlib.redirect_stderr(io.StringIO()):
@@ -865,6 +978,7 @@ class Bench(object):
                 raise
         finally:
             os.listdir = self._listdir
+            os.scandir = self._scandir
             if old_int is not None:
                 signal.signal(signal.SIGINT, old_int)
         # threads the code under test started and left running still belong to this run: give them a bounded time to
@@ -946,6 +1060,9 @@ class Walker(object):
         self.weak_whole = 0     # quiescent states where refresh skips an image whose index.wtml itself is truncated
         self.samples = []
         self._snap_id = None
+        self.flat = is_flat(self.files)
+        self.refused_runs = 0   # runs that ended, as the spec says, with publish() raising at a sub-folder
+        self.stray_names = set()
 
     def finding(self, key, msg, hist, real):
         f = self.findings.get(key)
@@ -997,12 +1114,21 @@ class Walker(object):
                     self.finding(K_INDEX_TRUNC, "after the %s the store holds an incomplete %s/index.wtml (not byte-identical to the approved "
                                  "file) and pipeline refresh skips %s as already done%s"
                                  % (self.how(plan, res), i, i, "" if final["whole"] else " (TLC: SkippedIsWhole is FALSE in this state of the spec)"), hist, real)
-        if plan.fault is None:
+        if plan.fault is None and plan.refused:
+            # a file set with a sub-folder: "re-running completes the job" is not judged (as built publish() refuses the
+            # sub-folder in every run; recorded in the notes); the safety sentences above are
+            if res["outcome"] == "raised":
+                self.refused_runs += 1
+            elif res["sync"]:
+                res["sync"] = False
+                self.drift("spec (as built): publish() raises at the sub-folder %s/%s; the real run %s" % (
+                    plan.refused["image"], plan.refused["subdir"], res["outcome"]), hist)
+        elif plan.fault is None and self.flat:
             done = all(real["loc"][i] == "published" and all(v == "complete" for v in real["store"][i].values()) for i in self.files)
             if res["outcome"] != "returned" or not done:
                 self.finding(K_RERUN, "a run of publish() without any fault %s and left %s"
                              % ("returned" if res["outcome"] == "returned" else "raised %s" % res["error"], json.dumps(real, sort_keys=True)), hist, real)
-        if res["outcome"] == "raised" and plan.fault is not None:
+        if res["outcome"] == "raised" and not plan.refused and (plan.fault is not None or not self.flat):
             self.drift("publish() raised %s by itself" % res["error"], hist)
         # spec vs real, after the run
         if res["sync"]:
@@ -1013,6 +1139,20 @@ class Walker(object):
             elif sorted(final["skips"]) != skips:
                 self.drift("refresh skips %s, spec RefreshSkips %s" % (skips, sorted(final["skips"])), hist)
         return real, skips
+
+    def safety_after_rerun(self, real, before, hist, what):
+        """The safety sentences on the real disk after a run that has no spec behaviour behind it."""
+        b = self.bench
+        for i, fs in self.files.items():
+            bad = sorted(f for f in fs if f != INDEX and real["store"][i][f] != "complete")
+            if INDEX in fs and b.real_io.check_exists(i, INDEX) and bad and not (before["store"][i][INDEX] != "absent" and
+                                                                                   any(before["store"][i][f] != "complete" for f in bad)):
+                self.finding(K_INDEX_INCOMPLETE, "after the %s the store holds %s/index.wtml while %s %s" % (
+                    what, i, bad, [real["store"][i][f] for f in bad]), hist, real)
+            allbad = sorted(f for f in fs if real["store"][i][f] != "complete")
+            if real["loc"][i] != "approved" and before["loc"][i] == "approved" and (allbad or real["loc"][i] != "published"):
+                self.finding(K_PUBLISHED, "after the %s the directory of %s is %s while %s of it %s in the store" % (
+                    what, i, real["loc"][i], allbad, [real["store"][i][f] for f in allbad]), hist, real)
 
     @staticmethod
     def how(plan, res):
@@ -1054,21 +1194,26 @@ class Walker(object):
         for d in res["drifts"]:
             self.drift(d, hist2)
         real, skips = self.monitors(plan, hist2, before, res, after, dg)
-        if b.stray(after):
+        strays = b.stray(after)
+        if strays:
             self.stray += 1
+            if len(self.stray_names) < 6:
+                self.stray_names.update(re.sub(r"\d+", "#", s) if s.split("/")[-1] not in NAMES else s for s in strays[:2])
         if plan.fault is not None and plan.fault.get("variant") == "kill-cli" and res["sync"]:
             # the operator runs the command again, undisturbed: it must complete the job
             todo = sorted(i for i in self.files if os.path.isdir(os.path.join(b.work, "approved", i)))
             if todo:
                 ls = [(i, sorted(b._listdir(os.path.join(b.work, "approved", i)))) for i in todo]
-                fp = FreePlan(ls[0][0], ls[0][1], ls[1:])
+                fp = FreePlan(ls[0][0], ls[0][1], ls[1:], descend=plan.descend, scan_reverse=plan.scan_reverse)
                 fp.via_cli = True
                 res2 = b.run(fp, self.atomic)
                 self.runs += 1
                 b.current = None
                 real2 = b.real_state()
-                if res2["outcome"] != "returned" or not all(real2["loc"][i] == "published" and all(v == "complete" for v in real2["store"][i].values())
-                                                            for i in self.files):
+                for k2, msg2 in res2["alarms"]:
+                    self.finding(k2, msg2 + " (re-run through the command line after the %s)" % self.how(plan, res), hist2, real2)
+                if self.flat and (res2["outcome"] != "returned" or not all(real2["loc"][i] == "published" and all(v == "complete" for v in real2["store"][i].values())
+                                                                            for i in self.files)):
                     self.finding(K_RERUN, "after the %s re-running `toasty pipeline publish` %s and left %s"
                                  % (self.how(plan, res), "returned" if res2["outcome"] == "returned" else "raised %s" % res2["error"],
                                     json.dumps(real2, sort_keys=True)), hist2, real2)
@@ -1078,12 +1223,16 @@ class Walker(object):
             res2 = {"outcome": "returned", "error": None}
             if todo:
                 ls = [(i, sorted(b._listdir(os.path.join(b.work, "approved", i)))) for i in todo]
-                res2 = b.run(FreePlan(ls[0][0], ls[0][1], ls[1:]), self.atomic)
+                res2 = b.run(FreePlan(ls[0][0], ls[0][1], ls[1:], descend=plan.descend, scan_reverse=plan.scan_reverse), self.atomic)
                 self.runs += 1
                 b.current = None            # the disk no longer is the snapshot taken above
             real2 = b.real_state()
-            if res2["outcome"] != "returned" or not all(real2["loc"][i] == "published" and all(v == "complete" for v in real2["store"][i].values())
-                                                        for i in self.files):
+            for k2, msg2 in res2.get("alarms", ()):
+                self.finding(k2, msg2 + " (fault-free re-run after the %s)" % self.how(plan, res), hist2, real2)
+            if todo:
+                self.safety_after_rerun(real2, before, hist2, "fault-free re-run after the %s" % self.how(plan, res))
+            if self.flat and (res2["outcome"] != "returned" or not all(real2["loc"][i] == "published" and all(v == "complete" for v in real2["store"][i].values())
+                                                                        for i in self.files)):
                 self.finding(K_RERUN, "after the %s a fault-free re-run of publish() %s and left %s"
                              % (self.how(plan, res), "returned" if res2["outcome"] == "returned" else "raised %s" % res2["error"],
                                 json.dumps(real2, sort_keys=True)), hist2, real2)
@@ -1105,10 +1254,12 @@ class Walker(object):
 
     def report(self):
         r = {"findings": self.findings, "drifts": self.drifts, "ndrift": self.ndrift, "runs": self.runs,
-             "distinct": self.distinct, "stray": self.stray, "na": getattr(self, "stray_na", 0), "weak_whole": self.weak_whole, "samples": self.samples}
+             "distinct": self.distinct, "stray": self.stray, "na": getattr(self, "stray_na", 0), "weak_whole": self.weak_whole, "samples": self.samples,
+             "refused": self.refused_runs, "stray_names": sorted(self.stray_names)}
         self.findings, self.drifts, self.ndrift, self.runs = {}, [], 0, 0
         self.distinct, self.stray, self.weak_whole, self.samples = set(), 0, 0, []
         self.stray_na = 0
+        self.refused_runs, self.stray_names = 0, set()
         return r
 
 
@@ -1130,7 +1281,7 @@ def _expand(args):
     return r
 
 
-def replay_graph(ctx, graph, atomic, share, tag):
+def replay_graph(ctx, graph, atomic, share, tag, roots=None):
     """Level-synchronised walk over every path of the graph.  A node is (spec idle state, real disk contents); with
     `share`, paths that arrive at the same node are continued once (and counted as often as they arrive)."""
     import multiprocessing as mp
@@ -1138,20 +1289,19 @@ def replay_graph(ctx, graph, atomic, share, tag):
     base = ctx.mkdtemp("bench")
     frontier = {}
     for rk in graph.roots:
-        if graph.state[rk]["pc"] != "idle":
-            ctx.machinery("a root of the dumped graph is not an initial state")
+        if roots is not None and fkey(graph.state[rk]["files"]) not in roots:
+            continue
         files = {i: list(fs) for i, fs in graph.state[rk]["files"].items()}
-        snap0 = {}
-        for i, fs in files.items():
-            snap0["work/approved/" + i] = None
-            for f in fs:
-                snap0["work/approved/%s/%s" % (i, f)] = content(i, f)
+        snap0 = initial_snapshot(files)
         frontier[(rk, rk, digest(snap0), ())] = [snap0, 1, []]
-    agg = {"runs": 0, "paths": 0, "ndrift": 0, "stray": 0, "weak_whole": 0, "nodes": 0, "levels": 0, "na": 0}
+    agg = {"runs": 0, "paths": 0, "ndrift": 0, "stray": 0, "weak_whole": 0, "nodes": 0, "levels": 0, "na": 0, "refused": 0,
+           "repeats": 0, "stray_names": set()}
     found = {}
-    with mp.get_context("fork").Pool(8) as pool:
+    with mp.get_context("fork").Pool(POOL) as pool:
         while frontier:
             agg["levels"] += 1
+            if agg["levels"] > 40:
+                ctx.machinery("the walk over the graph does not end (more than 40 runs on one path)")
             items = []
             for nk in sorted(frontier, key=lambda t: (t[0], t[1], t[2], t[3])):
                 snap, cnt, hist = frontier[nk]
@@ -1163,8 +1313,9 @@ def replay_graph(ctx, graph, atomic, share, tag):
             results = pool.map(_expand, [(nk[0], nk[1], snap, hist, base, atomic) for nk, snap, cnt, hist in items], chunksize=1)
             frontier = {}
             for (nk, snap, cnt, hist), r in zip(items, results):
-                for k in ("runs", "ndrift", "stray", "weak_whole", "na"):
+                for k in ("runs", "ndrift", "stray", "weak_whole", "na", "refused"):
                     agg[k] += r[k]
+                agg["stray_names"].update(r["stray_names"])
                 for key, (n, msg, rep) in sorted(r["findings"].items()):
                     f = found.setdefault(key, [0, msg, rep])
                     f[0] += n * cnt
@@ -1177,6 +1328,12 @@ def replay_graph(ctx, graph, atomic, share, tag):
                 for j, ek, edg, esnap in r["children"]:
                     if esnap is None:
                         agg["paths"] += cnt        # the path left the spec (reported as drift); not continued
+                        continue
+                    if (ek, edg) == (nk[1], nk[2]):
+                        # a refused run (sub-folder) that changed nothing: spec state and disk are those it started from;
+                        # running it again would repeat it
+                        agg["paths"] += cnt
+                        agg["repeats"] += 1
                         continue
                     h2 = hist + [(nk[1], j)]
                     ck = (nk[0], ek, edg, () if share else tuple(h2))
@@ -1191,7 +1348,41 @@ def replay_graph(ctx, graph, atomic, share, tag):
         ctx.violation(key, msg, rep)
     ctx.count(agg["runs"])
     ctx.trace_ok(agg["runs"])
+    agg["stray_names"] = sorted(agg["stray_names"])[:6]
     return agg
+
+
+def probe_traversal(ctx, files, reverse):
+    """What does the real publish() do with an approved image that has a sub-folder?  One undisturbed run on a scratch work
+    dir, every directory below approved/ listed in sorted (reverse-sorted) order whichever way publish() lists it
+    (os.listdir, os.scandir / os.walk).  As built it raises at the sub-folder before index.wtml is sent; a publish() that
+    transfers files of sub-folders has left that model, and the transfer order it is seen to use selects the runs of the
+    to-be graph (Traversal = "descend-any") that are replayed.  The safety sentences are judged on the real disk here, too."""
+    b = Bench(ctx.mkdtemp("probe-nested"), files)
+    b.restore(initial_snapshot(files))
+    ls = [(i, sorted(b._listdir(os.path.join(b.work, "approved", i)), reverse=reverse)) for i in sorted(files)]
+    res = b.run(FreePlan(ls[0][0], ls[0][1], ls[1:], descend=True, scan_reverse=reverse), True)
+    ctx.count()
+    orders = {}
+    for c in res["calls"]:
+        orders.setdefault(c[0], []).append("/".join(str(x) for x in c[1:]))
+    real = b.real_state()
+    rp = {"files": {i: sorted(fs) for i, fs in files.items()}, "directory_order": "reverse-sorted" if reverse else "sorted", "probe": True,
+          "put_calls": res["calls"], "outcome": res["outcome"], "error": res["error"], "observed": real, "fault": None}
+    for k, msg in res["alarms"]:
+        ctx.violation(k, msg + " (undisturbed publish() of an image with a sub-folder, directories listed in %s order)" % rp["directory_order"], rp)
+    for i, fs in files.items():
+        bad = sorted(f for f in fs if f != INDEX and real["store"][i][f] != "complete")
+        if INDEX in fs and b.real_io.check_exists(i, INDEX) and bad:
+            ctx.violation(K_INDEX_INCOMPLETE, "after an undisturbed publish() (%s%s) of an image with a sub-folder the store holds %s/index.wtml while %s %s"
+                          % (res["outcome"], " " + res["error"] if res["error"] else "", i, bad, [real["store"][i][f] for f in bad]), rp)
+        allbad = sorted(f for f in fs if real["store"][i][f] != "complete")
+        if real["loc"][i] != "approved" and (allbad or real["loc"][i] != "published"):
+            ctx.violation(K_PUBLISHED, "after an undisturbed publish() (%s) of an image with a sub-folder its directory is %s while %s of it %s in the store"
+                          % (res["outcome"], real["loc"][i], allbad, [real["store"][i][f] for f in allbad]), rp)
+    descends = any(len(c) > 2 for c in res["calls"])
+    complete = descends and res["outcome"] == "returned" and all(sorted(orders.get(i, [])) == sorted(fs) for i, fs in files.items())
+    return {"descends": descends, "complete": complete, "orders": orders, "outcome": res["outcome"], "error": res["error"]}
 
 
 # ------------------------------------------------------------------------------------------------
@@ -1199,13 +1390,419 @@ def replay_graph(ctx, graph, atomic, share, tag):
 class FreePlan(object):
     """A run without a spec behaviour behind it (physical scenario): only the listings are imposed."""
 
-    def __init__(self, img, listing, more=()):
+    def __init__(self, img, listing, more=(), descend=False, scan_reverse=False):
         both = [(img, listing)] + list(more)
         self.queue = [i for i, _ in both]
         self.images = [{"img": i, "listing": list(ls), "order": None, "pre": None} for i, ls in both]
         self.puts = []
         self.fault = None
         self.start = {"faults": 0}
+        self.refused = None
+        self.descend = descend
+        self.scan_reverse = scan_reverse
+
+
+# ------------------------------------------------------------------------------------------------
+# BEYOND THE STATED QUANTIFIER: two overlapping publish() runs (spec/PublishOverlap.tla)
+# ------------------------------------------------------------------------------------------------
+
+K_OVERLAP_INDEX = "C18:publish:overlapping-runs:index-with-incomplete-file"
+K_OVERLAP_PUBLISHED = "C18:publish:overlapping-runs:published-with-incomplete-file"
+OBLOCK = 16384          # a multiple of the stream buffer: a block handed to the store-side file object goes to the disk at once
+OIMG = "imgA"
+
+
+def overlap_module(name, order, max_crash):
+    from lib.core import SPEC_DIR
+    text = open(os.path.join(SPEC_DIR, "MCPublishOverlap.tla")).read()
+    text, n1 = re.subn(r"MODULE MCPublishOverlap\b", "MODULE " + name, text, count=1)
+    text, n2 = re.subn(r"MCOrder ==.*", lambda m: "MCOrder == " + tla.lit(list(order)), text, count=1)
+    text, n3 = re.subn(r"MCMaxCrash ==.*", lambda m: "MCMaxCrash == " + tla.lit(list(max_crash)), text, count=1)
+    if (n1, n2, n3) != (1, 1, 1):
+        raise RuntimeError("spec/MCPublishOverlap.tla does not have the expected shape")
+    return text
+
+
+def overlap_cfg(shared, invariants, emit=False, properties=()):
+    lines = ["SPECIFICATION Spec", "CONSTANTS", " Order <- MCOrder", ' Index = "%s"' % INDEX, " NB <- MCNB", " Early <- MCEarly",
+             " MaxCrash <- MCMaxCrash", " SharedTmp = %s" % ("TRUE" if shared else "FALSE")]
+    lines += ["INVARIANT " + i for i in invariants] + ["PROPERTY " + q for q in properties]
+    if emit:
+        lines.append("ACTION_CONSTRAINT EmitEdge")
+    lines.append("CHECK_DEADLOCK FALSE")
+    return "\n".join(lines) + "\n"
+
+
+def oblocks(fn):
+    """The content of a file of the overlap exploration, as the blocks in which its source stream hands it out
+    (MCNB / MCEarly of spec/MCPublishOverlap.tla: data.png = two blocks that reach the disk before close, the others one
+    block that is written at close)."""
+    if fn == BIG:
+        return [bytes([65 + j]) * OBLOCK for j in range(2)], 2
+    return [("%s|" % fn).encode() + bytes(range(65, 85))], 0
+
+
+def overlap_paths(edges, bound):
+    """Every path of the dumped graph from the initial state to a state where both runs have ended, with at most `bound`
+    preemptions (a step of one process while the process that made the step before could still move; being killed is
+    not a step of the process).  bound = None: every path."""
+    state, adj = {}, {}
+    for e in edges:
+        a, b = skey(e["s"]), skey(e["t"])
+        state.setdefault(a, e["s"])
+        state.setdefault(b, e["t"])
+        for act in sorted(map(tuple, e["acts"])):
+            item = (act, b)
+            if item not in adj.setdefault(a, []):
+                adj[a].append(item)
+    roots = [k for k, s in state.items() if s["pc"] == ["idle", "idle"]]
+    if len(roots) != 1:
+        raise RuntimeError("overlap graph: %d initial states" % len(roots))
+    out, npaths = [], [0]
+    ended = ("done", "failed", "dead")
+
+    def dfs(key, acc, last, pre):
+        nxt = sorted(adj.get(key, ()))
+        if not nxt:
+            npaths[0] += 1
+            out.append(list(acc))
+            return
+        s = state[key]
+        for (a, p), tk in nxt:
+            cost = 0
+            if a != "Crash" and last is not None and p != last and s["pc"][last - 1] not in ended:
+                cost = 1
+            if bound is not None and pre + cost > bound:
+                continue
+            acc.append(((a, p), tk))
+            dfs(tk, acc, last if a == "Crash" else p, pre + cost)
+            acc.pop()
+    dfs(roots[0], [], None, 0)
+    return state, roots[0], out
+
+
+def _overlap_child(work, order, pno, cmd_r, rep_w):
+    """One publisher process: the real PipelineManager.publish() on `work`, stopping at every point that separates two
+    steps of the spec until the parent lets it go on."""
+    def say(obj):
+        os.write(rep_w, (json.dumps(obj) + "\n").encode())
+
+    def pause(pc, k=0, b=0):
+        say({"at": [pc, k, b]})
+        if not os.read(cmd_r, 1):
+            os._exit(98)            # the parent went away
+
+    code = 0
+    try:
+        from toasty import pipeline
+        approved = os.path.join(work, "approved")
+        real_listdir = os.listdir
+        st = {"k": 0, "begun": False}
+
+        def listdir(path="."):
+            try:
+                pth = os.path.normpath(os.fspath(path))
+            except TypeError:
+                return real_listdir(path)
+            if pth == approved and not st["begun"]:
+                st["begun"] = True
+                pause("idle")
+            res = real_listdir(path)
+            if os.path.dirname(pth) == approved and sorted(res) == sorted(order):
+                return list(order)           # index.wtml is last in this listing already: the transfer list of the spec
+            return res
+
+        class Paced(object):
+            def __init__(self, k, fn):
+                self.k, self.blocks, self.early = k, oblocks(fn)[0], oblocks(fn)[1]
+                self.n = 0
+
+            def read(self, size=-1):
+                n = self.n
+                self.n += 1
+                if n < self.early:
+                    pause("write", self.k, n)
+                    return self.blocks[n]
+                if n == self.early:
+                    pause("close", self.k, n)
+                    return b"".join(self.blocks[n:])
+                return b""
+
+        class Proxy(object):
+            def __init__(self, real):
+                self._real = real
+
+            def __getattr__(self, name):
+                return getattr(self._real, name)
+
+            def put_item(self, *path, source=None):
+                st["k"] += 1
+                pause("open", st["k"], 0)
+                self._real.put_item(*path, source=Paced(st["k"], path[-1]))
+
+        mgr = pipeline.PipelineManager(work)
+        mgr._pipeio = Proxy(mgr._pipeio)
+        os.listdir = listdir
+        try:
+            with open(os.devnull, "w") as null, contextlib.redirect_stdout(null), contextlib.redirect_stderr(null):
+                mgr.publish()
+            if not st["begun"]:
+                pause("idle")
+            say({"end": "done"})
+        except Exception as e:  # noqa
+            say({"end": "failed", "error": "%s: %s" % (type(e).__name__, e)})
+    except BaseException:  # noqa
+        import traceback
+        try:
+            say({"end": "machinery", "error": traceback.format_exc()})
+        except OSError:
+            pass
+        code = 3
+    finally:
+        os._exit(code)
+
+
+def _overlap_replay(args):
+    """Worker: replays paths of the overlap graph; each path = a fresh work dir and store and two forked publishers that
+    are let go one step at a time, in the order of the path (so the interleaving is the one TLC produced, deterministically)."""
+    import select
+    base, order, paths = args
+    repo.setup()
+    from toasty import pipeline  # noqa: F401  (imported before forking the publishers)
+    files = {f: b"".join(oblocks(f)[0]) for f in order}
+    state = _G["overlap_state"]
+    out = {"runs": 0, "findings": {}, "drifts": [], "ndrift": 0, "steps": 0, "samples": []}
+    root = tempfile_mkdtemp(base)
+    for pi, path in paths:
+        d = os.path.join(root, "p%d" % pi)
+        work, store = os.path.join(d, "work"), os.path.join(d, "store")
+        os.makedirs(os.path.join(work, "approved", OIMG))
+        os.makedirs(store)
+        with open(os.path.join(work, "toasty-store-config.yaml"), "w") as f:
+            f.write("_type: local\npath: %s\n" % store)
+        for fn, data in files.items():
+            with open(os.path.join(work, "approved", OIMG, fn), "wb") as f:
+                f.write(data)
+        procs = {}
+        sync, drifts = True, []
+        desc = [[a, q] for (a, q), _ in path]
+
+        def real_state():
+            items = {}
+            for fn, data in files.items():
+                try:
+                    with open(os.path.join(store, OIMG, fn), "rb") as fh:
+                        items[fn] = "complete" if fh.read() == data else "partial"
+                except FileNotFoundError:
+                    items[fn] = "absent"
+            a = os.path.isdir(os.path.join(work, "approved", OIMG))
+            pb = os.path.isdir(os.path.join(work, "published", OIMG))
+            return items, ("approved" if a and not pb else "published" if pb and not a else "both" if a else "lost")
+
+        def report(q):
+            """The next report of publisher q: ('at', [pc, k, b]) | ('end', how, error)."""
+            pr = procs[q]
+            while b"\n" not in pr["buf"]:
+                r, _, _ = select.select([pr["rep"]], [], [], 120)
+                chunk = os.read(pr["rep"], 4096) if r else b""
+                if not chunk:
+                    if not r:
+                        os.kill(pr["pid"], signal.SIGKILL)
+                    os.waitpid(pr["pid"], 0)
+                    pr["live"] = False
+                    return ("end", "died", "no report within 120 s" if not r else "no report")
+                pr["buf"] += chunk
+            line, pr["buf"] = pr["buf"].split(b"\n", 1)
+            obj = json.loads(line)
+            if "end" in obj:
+                os.waitpid(pr["pid"], 0)
+                pr["live"] = False
+                if obj["end"] == "machinery":
+                    raise RuntimeError("harness failure in a publisher process:\n" + obj["error"])
+                return ("end", obj["end"], obj.get("error"))
+            return ("at", obj["at"])
+
+        try:
+            for q in (1, 2):
+                cr, cw = os.pipe()
+                rr, rw = os.pipe()
+                pid = os.fork()
+                if pid == 0:
+                    os.close(cw)
+                    os.close(rr)
+                    for o in procs.values():
+                        os.close(o["cmd"])
+                        os.close(o["rep"])
+                    _overlap_child(work, order, q, cr, rw)
+                os.close(cr)
+                os.close(rw)
+                procs[q] = {"pid": pid, "cmd": cw, "rep": rr, "buf": b"", "live": True, "last": None}
+                procs[q]["last"] = report(q)
+            ends = {}
+            for (act, q), tk in path:
+                spec = state[tk]
+                out["steps"] += 1
+                pr = procs[q]
+                if not pr["live"]:
+                    if sync:
+                        sync = False
+                        drifts.append("step %s of publisher %d: the real process has ended already (%s)" % (act, q, ends.get(q)))
+                    continue
+                if act == "Crash":
+                    os.kill(pr["pid"], signal.SIGKILL)
+                    os.waitpid(pr["pid"], 0)
+                    pr["live"] = False
+                    ends[q] = "dead"
+                else:
+                    os.write(pr["cmd"], b"g")
+                    rp = report(q)
+                    want = spec["pc"][q - 1]
+                    if rp[0] == "end":
+                        ends[q] = "%s%s" % (rp[1], " (%s)" % rp[2] if rp[2] else "")
+                        if sync and rp[1] != want:
+                            sync = False
+                            drifts.append("after step %s of publisher %d the real run has %s, spec pc = %s" % (act, q, ends[q], want))
+                    elif sync and rp[1] != [want, spec["k"][q - 1], spec["b"][q - 1]]:
+                        sync = False
+                        drifts.append("after step %s of publisher %d the real run is at %s, spec at %s" % (
+                            act, q, rp[1], [want, spec["k"][q - 1], spec["b"][q - 1]]))
+                if sync:
+                    items, loc = real_state()
+                    if items != spec["items"] or loc != spec["loc"]:
+                        sync = False
+                        drifts.append("after step %s of publisher %d: real store %s / %s, spec %s / %s" % (
+                            act, q, json.dumps(items, sort_keys=True), loc, json.dumps(spec["items"], sort_keys=True), spec["loc"]))
+            # whatever is still running (the run left the spec) is let go to its end, one process after the other
+            for q in (1, 2):
+                pr = procs[q]
+                n = 0
+                while pr["live"] and n < 200:
+                    n += 1
+                    os.write(pr["cmd"], b"g")
+                    rp = report(q)
+                    if rp[0] == "end":
+                        ends[q] = "%s%s" % (rp[1], " (%s)" % rp[2] if rp[2] else "")
+        finally:
+            for pr in procs.values():
+                if pr["live"]:
+                    try:
+                        os.kill(pr["pid"], signal.SIGKILL)
+                        os.waitpid(pr["pid"], 0)
+                    except OSError:
+                        pass
+                os.close(pr["cmd"])
+                os.close(pr["rep"])
+        out["runs"] += 1
+        final = state[path[-1][1]]
+        items, loc = real_state()
+        rp = {"overlap": True, "order": list(order), "schedule": desc, "observed": {"items": items, "loc": loc, "ends": ends},
+              "spec_final": {"items": final["items"], "loc": final["loc"], "IndexImpliesAll": final["iia"], "PublishedImpliesAll": final["pia"]}}
+        how = ("BEYOND THE STATED QUANTIFIER (two publish() runs overlapping on one image; schedule %s; publisher 1 %s, publisher 2 %s): "
+               % (" ".join("%s%d" % (a if a != "Crash" else "KILL", q) for a, q in desc), ends.get(1), ends.get(2)))
+        bad = sorted(f for f in items if f != INDEX and items[f] != "complete")
+        if os.path.exists(os.path.join(store, OIMG, INDEX)) and bad:
+            fd = out["findings"].setdefault(K_OVERLAP_INDEX, [0, how + "when both runs have ended the store holds %s/index.wtml while %s %s%s" % (
+                OIMG, bad, [items[f] for f in bad], "" if not final["iia"] else " (TLC: holds in the as-built model, temporary name per process)"), rp])
+            fd[0] += 1
+        allbad = sorted(f for f in items if items[f] != "complete")
+        if loc != "approved" and (allbad or loc != "published"):
+            fd = out["findings"].setdefault(K_OVERLAP_PUBLISHED, [0, how + "when both runs have ended the image directory is %s while %s %s in the store" % (
+                loc, allbad, [items[f] for f in allbad]), rp])
+            fd[0] += 1
+        if sync:
+            strays = sum(len([e for e in fns if e not in files]) for _, _, fns in os.walk(os.path.join(store, OIMG))) if os.path.isdir(os.path.join(store, OIMG)) else 0
+            if strays != final["strays"]:
+                drifts.append("when both runs have ended the store holds %d entries that are not files of the image, spec %d temporary names" % (strays, final["strays"]))
+        if drifts:
+            out["ndrift"] += 1
+            if len(out["drifts"]) < 2:
+                out["drifts"].append("overlapping runs, schedule %s: %s" % (json.dumps(desc), drifts[0]))
+        if len(out["samples"]) < 1 and len(desc) > 10:
+            out["samples"].append(rp)
+        shutil.rmtree(d, ignore_errors=True)
+    shutil.rmtree(root, ignore_errors=True)
+    return out
+
+
+def tempfile_mkdtemp(base):
+    import tempfile
+    return tempfile.mkdtemp(prefix="ov%d-" % os.getpid(), dir=base)
+
+
+def overlap_exploration(ctx, tlc_raw, atomic, only=None, order=None):
+    """Two overlapping publish() runs on one image - outside the property's quantifier (one publisher with injected
+    crashes / failures), explored separately and reported under keys of its own.  only = a recorded schedule (--replay)."""
+    import multiprocessing as mp
+    if not atomic:
+        ctx.note("overlapping_runs (beyond the stated quantifier)", "not explored: the put_item under test does not write to a temporary sibling "
+                 "(spec/PublishOverlap.tla models temp + os.replace)")
+        return
+    order = order or ([BIG, INDEX] if ctx.quick else ["thumb.jpg", BIG, INDEX])
+    crash = [0, 1] if (ctx.quick and not only) else [1, 1]
+    bound = None if only else 2 if ctx.quick else 3
+
+    def tlc(name, cfg_text, **kw):
+        return tlc_raw(name, extra={name + ".tla": overlap_module(name, order, crash)}, cfg_text=cfg_text, timeout=3000, **kw)
+
+    inv = ["TypeOK", "QIndexImpliesAll", "QPublishedImpliesAll", "ItemsWhole"]
+    from concurrent.futures import ThreadPoolExecutor
+    with ThreadPoolExecutor(2) as ex:
+        f1 = ex.submit(tlc, "MCPublishOverlap_asbuilt", overlap_cfg(False, inv, emit=True), workers=1)
+        f2 = ex.submit(tlc, "MCPublishOverlap_shared_refuted", overlap_cfg(True, ["TypeOK", "QIndexImpliesAll"]), workers=1, expect_violation=True, count=False)
+        r1, r2 = f1.result(), f2.result()
+    if r2.violated != "QIndexImpliesAll":
+        ctx.machinery("TLC was expected to refute QIndexImpliesAll for a temporary name shared by the two publishers, it reports %r" % (r2.violated,))
+    edges = r1.json_lines("E")
+    state, root, paths = overlap_paths(edges, bound)
+    if len(state) != r1.distinct:
+        ctx.machinery("overlap edge dump incomplete: %d states in the dump, TLC found %d" % (len(state), r1.distinct))
+    _G["overlap_state"] = state
+    base = ctx.mkdtemp("overlap")
+    if only:
+        paths = [pth for pth in paths if [[a, q] for (a, q), _ in pth] == [list(x) for x in only]]
+        if not paths:
+            ctx.machinery("the recorded schedule is not a path of the overlap graph")
+    idx = list(enumerate(paths))
+    nchunk = max(1, min(len(idx), POOL * 4))
+    chunks = [idx[j::nchunk] for j in range(nchunk)]
+    if only:
+        results = [_overlap_replay((base, order, idx))]
+        print("schedule %s" % json.dumps(only))
+        print("   spec (as built): %s" % json.dumps({k: state[paths[0][-1][1]][k] for k in ("items", "loc", "iia", "pia")}, sort_keys=True))
+    else:
+        with mp.get_context("fork").Pool(POOL) as pool:
+            results = pool.map(_overlap_replay, [(base, order, c) for c in chunks], chunksize=1)
+    agg = {"runs": 0, "ndrift": 0, "steps": 0}
+    found = {}
+    ndr = 0
+    for r in results:
+        for k in agg:
+            agg[k] += r[k]
+        for d in r["drifts"][:1]:
+            ndr += 1
+            if ndr <= 3:
+                ctx.drift(d)
+        for key, (n, msg, rp) in sorted(r["findings"].items()):
+            f = found.setdefault(key, [0, msg, rp])
+            f[0] += n
+        for sm in r["samples"][:1]:
+            if "overlap_sample" not in _G:
+                _G["overlap_sample"] = True
+                ctx.sample(sm)
+    for key in sorted(found):
+        n, msg, rp = found[key]
+        rp["schedules_with_this_finding"] = n
+        ctx.violation(key, msg, rp)
+    ctx.count(agg["runs"])
+    ctx.trace_ok(agg["runs"])
+    ctx.note("overlapping_runs (beyond the stated quantifier)", {
+        "spec": "spec/PublishOverlap.tla: two publisher processes on one image (transfer list %s), process 1 / 2 may be killed %s times; inodes, names, blocks" % (order, crash),
+        "tlc": {"temporary name per process (as built)": "QIndexImpliesAll, QPublishedImpliesAll, ItemsWhole hold (%d distinct states)" % r1.distinct,
+                "one temporary name per item": "%s REFUTED (counterexample of %d states)" % (r2.violated, r2.output.count("\nState "))},
+        "replayed": "%d schedules (%s) on two forked processes running the real publish(), let go one spec step at a time; %d steps; the real store and "
+                    "image directory compared with the spec state after every step (%d schedules with drift); a failure here is reported under the keys %s / %s"
+                    % (agg["runs"], "every path of the graph" if bound is None else "every path of the graph with at most %d preemptions" % bound,
+                       agg["steps"], agg["ndrift"], K_OVERLAP_INDEX, K_OVERLAP_PUBLISHED)})
 
 
 def long_name_scenario(ctx):
@@ -1244,14 +1841,15 @@ def long_name_scenario(ctx):
                                     "judged": "safety on the real disk only (index.wtml / published imply all files complete)"})
 
 
-def dump_graph(ctx, tlc, configs, budget, atomic, name, r=None, full=True):
+def dump_graph(ctx, tlc, configs, budget, atomic, name, r=None, full=True, traversal="listdir", **gkw):
     if r is None:
-        r = tlc(name, configs, cfg(budget, atomic, ["TypeOK"], [], emit=True), workers=1)
+        r = tlc(name, configs, cfg(budget, atomic, ["TypeOK"], [], emit=True, traversal=traversal), workers=1)
     edges = r.json_lines("E")
     # every generated successor is printed once (again when TLC re-evaluates the constraint for liveness checking)
     if len(edges) < r.generated - len(configs):
         ctx.machinery("edge dump incomplete: %d edges printed, TLC generated %d states" % (len(edges), r.generated))
-    graph = Graph(edges, full=full)
+    graph = Graph(edges, full=full, **gkw)
+    graph.edges = edges
     if len(graph.state) != r.distinct:
         ctx.machinery("edge dump incomplete: %d states in the dump, TLC found %d distinct states" % (len(graph.state), r.distinct))
     if len(graph.roots) != len(configs):
@@ -1261,17 +1859,31 @@ def dump_graph(ctx, tlc, configs, budget, atomic, name, r=None, full=True):
 
 def replay_one(ctx, tlc, rep, atomic):
     """--replay FILE: follow the recorded history through a freshly dumped graph, on the tree under test."""
+    if rep.get("overlap"):
+        return overlap_exploration(ctx, ctx.tlc, atomic, only=rep["schedule"], order=rep["order"])
     files = {i: set(fs) for i, fs in rep["files"].items()}
+    if rep.get("probe"):
+        pr = probe_traversal(ctx, {i: sorted(fs) for i, fs in files.items()}, rep.get("directory_order") == "reverse-sorted")
+        print("undisturbed publish() of %s: %s %s; transfers %s" % (fkey(files), pr["outcome"], pr["error"] or "", pr["orders"]))
+        ctx.trace_ok(1)
+        return
     hist = rep["history"]
     budget = max(1, sum(1 for h in hist if h["fault"]))
-    graph = dump_graph(ctx, tlc, [files], budget, atomic, "MCPublish_replay")
+    gkw = {}
+    if any("directory_order" in h for h in hist):
+        # a history of a publisher that descends into sub-folders: the runs that use the traversal it is observed to make now
+        reverse = any(h.get("directory_order") == "reverse-sorted" for h in hist)
+        pr = probe_traversal(ctx, files, reverse)
+        if not pr["complete"]:
+            print("the recorded history is one of a publish() that transfers the files of sub-folders; this tree's publish() does not (%s %s): "
+                  "nothing to follow" % (pr["outcome"], pr["error"]))
+            ctx.trace_ok(1)
+            return
+        gkw = dict(traversal="descend-any", orders={fkey(files): pr["orders"]}, scan_reverse=reverse)
+    graph = dump_graph(ctx, tlc, [files], budget, atomic, "MCPublish_replay", **gkw)
     key = graph.roots[0]
     w = Walker(graph, key, ctx.mkdtemp("bench"), atomic)
-    snap = {}
-    for i, fs in w.files.items():
-        snap["work/approved/" + i] = None
-        for f in fs:
-            snap["work/approved/%s/%s" % (i, f)] = content(i, f)
+    snap = initial_snapshot(w.files)
     plans = []
     for n, desc in enumerate(hist):
         want = json.loads(json.dumps(desc))
@@ -1308,13 +1920,20 @@ def run(ctx):
                 "with the spec state at every hook and the property's sentences evaluated on the real quiescent state. "
                 "distinct = distinct (spec idle state, run) pairs with at least one transfer")
     A, B, C, D, E = "data.png", INDEX, "index_rel.wtml", "thumb.jpg", "0_0.png"
+    # files in sub-folders of the image directory, named by their relative path (suites whose tag ends in "n")
+    T, T2, P = "tiles/0_0.png", "tiles/1/0_0.png", "previews/small.jpg"
     if ctx.quick:
         suites = [("q", 2, [{"imgA": {A, B, C}}, {"imgA": {A, D}}]),
-                  ("q1", 1, [{"imgA": {A, B, C, D}}, {"imgA": {A, B}, "imgB": {B, D}}])]
+                  ("q1", 1, [{"imgA": {A, B, C, D}}, {"imgA": {A, B}, "imgB": {B, D}}]),
+                  ("qn", 1, [{"imgA": {A, B, T}}, {"imgA": {B, D, T2}, "imgB": {B, D}}])]
     else:
         suites = [("t4", 2, [{"imgA": {A, B, C, D}}, {"imgA": {A, C, D}}, {"imgA": {A, B, C}, "imgB": {B, D}}, {"imgA": {B}}]),
                   ("t3", 3, [{"imgA": {A, B, C}}, {"imgA": {A, D}}, {"imgA": {A, B}, "imgB": {B, D}}]),
-                  ("t5", 1, [{"imgA": {A, B, C, D, E}}, {"imgA": {A, B}, "imgB": {B, D}, "imgC": {B, C}}])]
+                  ("t5", 1, [{"imgA": {A, B, C, D, E}}, {"imgA": {A, B}, "imgB": {B, D}, "imgC": {B, C}}]),
+                  ("t4n", 2, [{"imgA": {A, B, C, T}}, {"imgA": {A, B, T, T2}}, {"imgA": {D, T}}, {"imgA": {B, D, T2}, "imgB": {B, D}},
+                              {"imgA": {B, D, P, T}}]),
+                  ("t3n", 3, [{"imgA": {A, B, T}}, {"imgA": {B, T}, "imgB": {B, D}}])]
+    nested_tags = {tag for tag, _, configs in suites if not all(is_flat(c) for c in configs)}
     kind, seen = probe_store_model(ctx.mkdtemp("probe"))
     ctx.note("store_model_of_real_put_item", {"model": kind, "destination_seen_at_first_read":
                                                 {k: (v.decode() if v is not None else None) for k, v in seen.items()}})
@@ -1328,14 +1947,32 @@ def run(ctx):
     if ctx.replay_path:
         rep = json.load(open(ctx.replay_path))["replay"]
         return replay_one(ctx, tlc, rep, atomic)
+    if "--overlap-only" in getattr(ctx, "extra_args", ()):        # development aid: ./check C18 --overlap-only
+        return overlap_exploration(ctx, ctx.tlc, atomic)
 
+    # file sets with sub-folders: which model does the publish() under test follow?  (as built: it raises at the sub-folder)
+    probes = {}
+    for tag, budget, configs in suites:
+        if tag in nested_tags:
+            for c in configs:
+                probes[fkey(c)] = [probe_traversal(ctx, {i: sorted(fs) for i, fs in c.items()}, rev) for rev in (False, True)]
+    descending = {k for k, prs in probes.items() if any(pr["descends"] for pr in prs)}
+    ctx.note("file_sets_with_sub_folders", {
+        "undisturbed_publish": {k: sorted({("%s %s" % (pr["outcome"], (pr["error"] or "").split(":")[0])).strip() for pr in prs}) for k, prs in probes.items()},
+        "model": "as built publish() opens every entry of the image directory as a file and raises IsADirectoryError at a sub-folder before index.wtml is sent "
+                 "(spec action RefuseSubdir, invariant NestedClosed): the safety sentences are judged for these file sets; 're-running publish completes the job' "
+                 "is NOT judged for them (no run ever publishes such an image, and it blocks the images listed after it) - the pipeline's own image sources "
+                 "produce flat directories",
+        "file_sets_the_tree_under_test_descends_into": sorted(descending)})
+    inplace_too = lambda tag: not (ctx.quick and tag in nested_tags)          # noqa: E731
     jobs = {}
     gsrc = {}          # suite -> theorem job whose run also dumps the graph (same store model and budget)
     for tag, budget, configs in suites:
         ja, ji = "MCPublish_%s_atomic_f%d" % (tag, budget), "MCPublish_%s_inplace_f1" % tag
-        ea, ei = atomic, (not atomic and budget == 1)
+        ea, ei = atomic, (not atomic and budget == 1 and inplace_too(tag))
         jobs[ja] = (configs, cfg(budget, True, Q_INV + ["QSkippedIsWhole"], PROPS, emit=ea), dict(workers=1 if ea else 4))
-        jobs[ji] = (configs, cfg(1, False, Q_INV, PROPS, emit=ei), dict(workers=1 if ei else 4))
+        if inplace_too(tag):
+            jobs[ji] = (configs, cfg(1, False, Q_INV, PROPS, emit=ei), dict(workers=1 if ei else 4))
         if ea or ei:
             gsrc[tag] = ja if ea else ji
     tag0, budget0, configs0 = suites[0]
@@ -1344,6 +1981,12 @@ def run(ctx):
         jobs["MCPublish_observer_atomic"] = (configs0, cfg(budget0, True, ["IndexImpliesAll", "PublishedImpliesAll", "SkippedIsWhole"], []), dict(workers=2))
         jobs["MCPublish_observer_inplace_refuted"] = (configs0, cfg(1, False, ["IndexImpliesAll"], []), dict(workers=1, expect_violation=True, count=False))
         jobs["MCPublish_whole_inplace_f1_refuted"] = (configs0, cfg(1, False, ["QSkippedIsWhole"], []), dict(workers=1, expect_violation=True, count=False))
+        # the to-be model of a publisher that descends into sub-folders: index.wtml last among ALL files -> everything holds;
+        # no assumption on the traversal -> refuted
+        tagn, budgetn, configsn = [s for s in suites if s[0] in nested_tags][0]
+        jobs["MCPublish_descend_index_last"] = (configsn, cfg(budgetn, True, Q_INV + ["QSkippedIsWhole"], PROPS, traversal="descend-index-last"), dict(workers=4))
+        jobs["MCPublish_descend_any_refuted"] = (configsn, cfg(1, True, ["QIndexImpliesAll"], [], traversal="descend-any"),
+                                                 dict(workers=1, expect_violation=True, count=False))
     with ThreadPoolExecutor(4) as ex:
         futs = {k: ex.submit(tlc, k, v[0], v[1], **v[2]) for k, v in jobs.items()}
         gfuts = {tag: ex.submit(dump_graph, ctx, tlc, configs, budget, atomic,
@@ -1361,7 +2004,8 @@ def run(ctx):
     for tag, budget, configs in suites:
         th["%s: atomic store, %d faults" % (tag, budget)] = ("all invariants, action properties and liveness hold (%d distinct states)"
                                                              % res["MCPublish_%s_atomic_f%d" % (tag, budget)].distinct)
-        th["%s: in-place store, 1 fault" % tag] = "all hold (%d distinct states)" % res["MCPublish_%s_inplace_f1" % tag].distinct
+        if inplace_too(tag):
+            th["%s: in-place store, 1 fault" % tag] = "all hold (%d distinct states)" % res["MCPublish_%s_inplace_f1" % tag].distinct
     th["%s: in-place store, 2 faults" % tag0] = "%s REFUTED by TLC (counterexample of %d states)" % (r2.violated, r2.output.count("\nState "))
     ctx.note("tlc_theorems", th)
     if not ctx.quick:
@@ -1369,19 +2013,55 @@ def run(ctx):
             "observer during a run, atomic store": "IndexImpliesAll/PublishedImpliesAll/SkippedIsWhole hold in every state",
             "observer during a run, in-place store": "refuted (%s)" % res["MCPublish_observer_inplace_refuted"].violated,
             "index.wtml itself whole when refresh skips, in-place store, 1 fault": "refuted (%s)" % res["MCPublish_whole_inplace_f1_refuted"].violated,
+            "a publisher that descends into sub-folders, index.wtml last among all files of the image (to-be model)":
+                "all invariants, action properties and liveness hold (%d distinct states)" % res["MCPublish_descend_index_last"].distinct,
+            "a publisher that descends into sub-folders, any traversal": "refuted (%s)" % res["MCPublish_descend_any_refuted"].violated,
         })
     gnote, rnote = {}, {}
     for tag, budget, configs in suites:
         graph = graphs[tag]
         gnote[tag] = {"store_model": "atomic" if atomic else "inplace", "fault_budget": budget, "states": len(graph.state),
                       "labelled_edges": graph.nedges, "configs": [{i: sorted(fs) for i, fs in c.items()} for c in configs]}
-        agg = replay_graph(ctx, graph, atomic, True, tag)
+        roots = None
+        if tag in nested_tags:
+            # the file sets the tree under test refuses (as built) are replayed on the as-built graph; so are those for which
+            # its traversal could not be observed as one clean pass (they leave the spec: drift, sentences judged on the disk)
+            follow = {fkey(c) for c in configs if fkey(c) in descending and all(pr["complete"] for pr in probes[fkey(c)])}
+            roots = {fkey(c) for c in configs} - follow
+            for c in configs:
+                if fkey(c) in descending:
+                    ctx.drift("publish() transfers files of a sub-folder of the image directory (spec as built: it raises at the sub-folder); file set %s: %s"
+                              % (fkey(c), "the runs of the to-be graph (Traversal = descend-any) that use its traversal are replayed" if fkey(c) in follow
+                                 else "its traversal is not one pass over all files (%s), the as-built graph is replayed"
+                                 % sorted({"%s %s" % (pr["outcome"], pr["error"]) for pr in probes[fkey(c)]})))
+            if follow:
+                dconfigs = [c for c in configs if fkey(c) in follow]
+                for rev in (False, True):
+                    orders = {fkey(c): probes[fkey(c)][int(rev)]["orders"] for c in dconfigs}
+                    if rev:
+                        dg = Graph(dg.edges, full=dg.full, orders=orders, scan_reverse=True)
+                    else:
+                        dg = dump_graph(ctx, tlc, dconfigs, budget, atomic, "MCPublish_%s_graph_descend_f%d" % (tag, budget), None,
+                                        1 if ctx.quick else 3, traversal="descend-any", orders=orders)
+                    dtag = tag + ("-descend-reverse" if rev else "-descend")
+                    agg = replay_graph(ctx, dg, atomic, True, dtag)
+                    rnote[dtag] = {"runs_of_real_publish": agg["runs"], "complete_paths_covered": agg["paths"], "runs_with_drift": agg["ndrift"],
+                                   "transfer_orders_followed": orders}
+        if roots is not None and not roots:
+            continue
+        agg = replay_graph(ctx, graph, atomic, True, tag, roots=roots)
         rnote[tag] = {"runs_of_real_publish": agg["runs"], "complete_paths_covered": agg["paths"],
                       "distinct_nodes (spec idle state, disk contents)": agg["nodes"], "runs_with_drift": agg["ndrift"],
                       "runs_leaving_stray_store_entries": agg["stray"],
                       "store_fault_variants_not_applicable (put_item renames nothing)": agg["na"],
                       "quiescent_states_where_refresh_skips_an_image_whose_index_itself_is_truncated (not claimed by the property)": agg["weak_whole"]}
+        if agg["stray_names"]:
+            rnote[tag]["stray_store_entries (not files of the image: ignored by the comparison, digits masked)"] = agg["stray_names"]
+        if tag in nested_tags:
+            rnote[tag]["runs_ending_with_publish_raising_at_a_sub_folder (as the spec says; re-run completeness not judged)"] = agg["refused"]
+            rnote[tag]["refused_runs_that_changed_nothing (not continued)"] = agg["repeats"]
     long_name_scenario(ctx)
+    overlap_exploration(ctx, ctx.tlc, atomic)
     ctx.note("graph", gnote)
     ctx.note("replay", rnote)
     ctx.exhaustive = True
@@ -1390,4 +2070,5 @@ def run(ctx):
     ctx.assume("a crash is modelled as a BaseException raised at a put_item boundary or from the source stream (buffers are flushed by "
                "the with-statement; loss of OS buffers on power failure is outside the model)")
     ctx.assume("only the local store backend is exercised; the Azure backend is assumed to replace an item atomically")
-    ctx.assume("a single publisher: no two publish() runs at the same time; image directories contain plain files")
+    ctx.assume("a single publisher: no two publish() runs at the same time; image directories contain plain files and sub-folders of plain "
+               "files (no links, no special files); 're-running completes the job' is judged for flat image directories only")
